@@ -45,6 +45,7 @@ ASSUMPTIONS = [
     "PEP 440 (model outcome `unmodelled`) are run on the real code only and counted as model-skipped",
     "PEP 508 requirements and dependencies are covered by the real-code oracle only (no driver op for Model/Requirement.lean / Model/Dep.lean yet); "
     "Factory.validate / validate_object are correspondence-only (no Lean model; fastjsonschema trusted)",
+    "fastjsonschema.compile is memoised per schema text by the harness (pure function; poetry-core recompiles both schemas on every validate call)",
     "a time-out is 5 s of process CPU time (ITIMER_PROF) observed on two runs of the same input; dependency parsing runs with an empty "
     "temporary directory as cwd",
 ]
@@ -76,6 +77,11 @@ def with_cpu_alarm(fn: Callable[[], Any], seconds: float = ALARM_S) -> Any:
         signal.signal(signal.SIGPROF, old)
 
 
+def _quiet() -> None:
+    import logging
+    logging.disable(logging.CRITICAL)  # poetry-core logs a warning per non-existent path
+
+
 def clear_caches() -> None:
     for name, mod in list(sys.modules.items()):
         if not name.startswith("poetry.core") or "_vendor" in name or mod is None:
@@ -92,14 +98,13 @@ def clear_caches() -> None:
 def site_of(e: BaseException) -> str:
     """`file.py:function` of the last poetry-core (non-vendored) frame of the traceback"""
     site = "?"
-    try:
-        # RecursionError tracebacks are long: only the tail matters
-        for fr in traceback.extract_tb(e.__traceback__, limit=-60):
-            fn = fr.filename.replace("\\", "/")
-            if "/poetry/core/" in fn and "/_vendor/" not in fn:
-                site = fn.rsplit("/", 1)[-1] + ":" + fr.name
-    except Exception:  # noqa: BLE001
-        pass
+    tb = e.__traceback__
+    while tb is not None:
+        code = tb.tb_frame.f_code
+        fn = code.co_filename.replace("\\", "/")
+        if "/poetry/core/" in fn and "/_vendor/" not in fn:
+            site = fn.rsplit("/", 1)[-1] + ":" + code.co_name
+        tb = tb.tb_next
     return site
 
 
@@ -189,7 +194,12 @@ def run_one(target: str, fn: Callable[[str], Any], s: str, alarm: bool = True) -
         ec = errclass(target, e)
         if ec and stage == "parse":
             return {"cls": "doc", "err": ec}
-        return {"cls": "other", "etype": type(e).__name__, "site": site_of(e), "stage": stage, "msg": str(e)[:120]}
+        site = site_of(e)
+        if isinstance(e, OSError) and e.errno is not None:
+            # file-system limits hit by a path probe (ENAMETOOLONG, ELOOP ...): one class per errno, whichever probe met it first
+            import errno as _errno
+            site = _errno.errorcode.get(e.errno, str(e.errno))
+        return {"cls": "other", "etype": type(e).__name__, "site": site, "stage": stage, "msg": str(e)[:120]}
 
 
 def violation_of(target: str, s: str, label: str, o: dict[str, Any]) -> tuple[str, str, dict[str, Any]] | None:
@@ -296,7 +306,8 @@ def run_cases(grammar: str, cases: list[tuple[str, str]], want_model: bool = Tru
             outcomes[t].append(o)
             cnt(f"{t}:" + (o["cls"] if o["cls"] != "other" else "other:" + o["etype"]) + (":" + o["err"] if o["cls"] == "doc" else ""))
             any_ok = any_ok or o["cls"] == "ok"
-            v = violation_of(t, s, label, o)
+            # `mraw` (the un-simplified tree) is the harness's own entry point for the correspondence: not judged
+            v = violation_of(t, s, label, o) if t != "mraw" else None
             if v is not None and not any(x[0] == v[0] for x in res["violations"]):
                 res["violations"].append(v)
         if any_ok or label not in ("chars",):
@@ -327,8 +338,9 @@ def run_cases(grammar: str, cases: list[tuple[str, str]], want_model: bool = Tru
                 if mv[0] == "err" and mv[1] in ("unmodelled", "fuel"):
                     cnt(f"{t}:model-skipped:{mv[1]}")
                     continue
-                if iv[0] == "err" and iv[1] == "timeout":
-                    cnt(f"{t}:model-skipped:impl-timeout")
+                if iv[0] == "err" and iv[1] in ("timeout", "recursion"):
+                    # resource exhaustion of the interpreter (the oracle above judges it); the model has no stack limit
+                    cnt(f"{t}:model-skipped:impl-{iv[1]}")
                     continue
                 if mv != iv:
                     dis += 1
@@ -347,7 +359,7 @@ def gen_cases(grammar: str, seed: int, n: int, n_big: int) -> list[tuple[str, st
         if i < n_big:
             # the few large cases of this chunk (super-linear cost in the real code): chains and nesting only
             s, label = (GF.long_chain(rnd, grammar, rnd.choice([300, 600, 1200])) if i % 2 == 0
-                        else GF.long_nest(rnd, grammar, rnd.choice([400, 1200, 3000])))
+                        else GF.long_nest(rnd, grammar, rnd.choice([30, 100, 400]), big=True))
             cases.append((s, label + "-big"))
         else:
             cases.append(GF.gen(grammar, rnd))
@@ -357,6 +369,7 @@ def gen_cases(grammar: str, seed: int, n: int, n_big: int) -> list[tuple[str, st
 def chunk_worker(args: tuple[str, int, int, int]) -> dict[str, Any]:
     grammar, seed, n, n_big = args
     core.use_repo_source()
+    _quiet()
     tmp = None
     old = os.getcwd()
     try:
@@ -376,7 +389,33 @@ def chunk_worker(args: tuple[str, int, int, int]) -> dict[str, Any]:
 # pyproject mappings
 # ----------------------------------------------------------------------------------------------------------------
 
+_COMPILE_CACHED = False
+
+
+def memoise_schema_compile() -> None:
+    """poetry-core compiles both JSON schemas anew on every validate() (~45 ms each); `fastjsonschema.compile` is a pure
+    function of the schema, so the harness memoises it per schema text (in-process wrapper; nothing in the repo is touched)."""
+    global _COMPILE_CACHED
+    if _COMPILE_CACHED:
+        return
+    import poetry.core.json as pj
+    fjs = pj.fastjsonschema
+    orig = fjs.compile
+    cache: dict[str, Any] = {}
+
+    def compile_cached(definition: Any, *a: Any, **k: Any) -> Any:
+        if a or k:
+            return orig(definition, *a, **k)
+        key = json.dumps(definition, sort_keys=True)
+        if key not in cache:
+            cache[key] = orig(definition)
+        return cache[key]
+    fjs.compile = compile_cached
+    _COMPILE_CACHED = True
+
+
 def run_mapping(d: dict[str, Any], strict: bool) -> dict[str, Any]:
+    memoise_schema_compile()
     from poetry.core.factory import Factory
     from poetry.core.json import validate_object
 
@@ -608,7 +647,7 @@ def _plan(ctx: core.Ctx, strings: int, mappings: int, chunk: int) -> tuple[list[
         size = chunk if g in ("version", "vconstraint", "generic") else max(500, chunk // 3)
         while left > 0:
             n = min(size, left)
-            n_big = (4 if ctx.thorough else 2) if first else 0
+            n_big = 4 if (first and ctx.thorough) else 0
             jobs.append((g, ctx.rng.getrandbits(48), n, n_big))
             left -= n
             first = False
@@ -639,6 +678,7 @@ def _run_stream(ctx: core.Ctx, strings: int, mappings: int, chunk: int, raw: lis
 
 
 def correspondence(ctx: core.Ctx) -> None:
+    _quiet()
     raw: list[tuple[str, str, dict[str, Any]]] = []
     # 1. corpus (past witnesses and boundary inputs), in process
     by_g: dict[str, list[tuple[str, str]]] = {}
@@ -676,6 +716,7 @@ def search(ctx: core.Ctx) -> None:
 
 
 def replay(ctx: core.Ctx, payload: dict[str, Any]) -> bool:
+    _quiet()
     w = payload.get("witness", payload)
     before = len(ctx.violations)
     if w.get("parser") == "validate":
